@@ -136,6 +136,34 @@ def _levenshtein(a, b):
     return prev[lb]
 
 
+def levenshtein_bounded(a, b, k):
+    """Levenshtein distance if it is <= k, else k + 1 (banded DP, O(len * k))."""
+    la, lb = len(a), len(b)
+    if abs(la - lb) > k:
+        return k + 1
+    if a == b:
+        return 0
+    big = k + 1
+    prev = [j if j <= k else big for j in range(lb + 1)]
+    for i in range(1, la + 1):
+        lo, hi = max(1, i - k), min(lb, i + k)
+        cur = [big] * (lb + 1)
+        if i <= k:
+            cur[0] = i
+        ca = a[i - 1]
+        for j in range(lo, hi + 1):
+            c = prev[j - 1] + (0 if ca == b[j - 1] else 1)
+            d = prev[j] + 1
+            if d < c:
+                c = d
+            d = cur[j - 1] + 1
+            if d < c:
+                c = d
+            cur[j] = c if c < big else big
+        prev = cur
+    return prev[lb] if prev[lb] <= k else big
+
+
 def bag_overlap(x, y):
     cx, cy = Counter(x), Counter(y)
     return sum(min(c, cy[t]) for t, c in cx.items() if t in cy)
